@@ -609,6 +609,18 @@ fn family_second_instance(g: &mut G, rng: &mut Rng, thorough: bool) {
             // the "silent" expectation above is a snapshot; from here on delivery is demanded
             g.ctx.step(g.eng, &format!("recv expect {} c {} C19", toi, len));
         }
+        // later instances move the expiry of the (now completed) objects: update_cache_control
+        let t3 = t2 + 20 * SEC;
+        let xml3 = replace_attr(&xml, "Expires", Some(&ntp_secs(t2 + 9000 * SEC).to_string()), 0);
+        for (i, p) in fdt_pkts(&xml3, 102, 64, if sct { Some(t3) } else { None }).iter().enumerate() {
+            g.push(p, t3 + i as i64 * 1000 + skew);
+        }
+        // exactly one second later: not "more than a second", no update
+        let xml4 = replace_attr(&xml, "Expires", Some(&ntp_secs(t2 + 9001 * SEC).to_string()), 0);
+        for (i, p) in fdt_pkts(&xml4, 103, 64, if sct { Some(t3 + SEC) } else { None }).iter().enumerate() {
+            g.push(p, t3 + SEC + i as i64 * 1000 + skew);
+        }
+        g.cleanup(t3 + 2 * SEC + skew, false);
         g.end();
     }
 }
@@ -693,14 +705,14 @@ fn family_registries(g: &mut G, rng: &mut Rng, thorough: bool) {
                 g.push(&p, T0 + 100);
             }
         }
-        g.expect_s(100, "C17");
-        g.expect_c(113, 20, "C17");
+        g.expect_s(100, "C17:fdt-current-over-10");
+        g.expect_c(113, 20, "C17:fdt-current-lost-instance");
         // a rotated-out id may be received again
         let f = fdt_xml(&far, &[("100".to_string(), 20)], 16, 8);
         for p in fdt_pkts(&f, 0, 64, None) {
             g.push(&p, T0 + 200);
         }
-        g.expect_c(100, 20, "C17");
+        g.expect_c(100, 20, "C17:rotated-out-id-not-received-again");
         g.end();
     }
     // (c) FDT instance states: Expires garbage (always expired), error, already received id
